@@ -67,18 +67,12 @@ def canon(entries):
         else:
             cur = None
             (loose if t == 'L' else missing).append(e[1:])
-    cr = []
-    for pid, rs in runs:
-        # ties on the offset (a zero-length object and its neighbour): order by length
-        out, i = [], 0
-        while i < len(rs):
-            j = i
-            while j < len(rs) and rs[j][2] == rs[i][2]:
-                j += 1
-            out += sorted(rs[i:j], key=lambda r: (r[3], r[0]))
-            i = j
-        cr.append((pid, tuple(out)))
-    return {'shape': ''.join(shape), 'runs': sorted(cr), 'loose': sorted(loose), 'missing': sorted(missing)}
+    # All packed entries, per pack in offset order (ties on the offset - a zero-length object and its neighbour - by length).  The run
+    # structure (one block per pack and per phase) is compared in canon_events, where the session reset separates the two phases: here
+    # two runs of one pack (before / after the refresh) may or may not be adjacent depending on the set iteration order.
+    packed = sorted((e for _pid, rs in runs for e in rs), key=lambda r: (r[1], r[2], r[3], r[0]))
+    runs_sorted = all(rs[i][2] <= rs[i + 1][2] for _pid, rs in runs for i in range(len(rs) - 1))   # every run in offset order
+    return {'shape': ''.join(shape), 'packed': packed, 'loose': sorted(loose), 'missing': sorted(missing), 'runs_in_offset_order': runs_sorted}
 
 
 class _Proxy:
